@@ -56,7 +56,7 @@ func (vc *VC) doCall(st *State, f *Frame, instr ssa.Value, c *ssa.CallCommon, ar
 	}
 	vc.curFrame = f
 	if len(st.frames) == 1 && vc.contract != nil && len(vc.contract.CallReqs) > 0 {
-		vc.checkCallReqs(st, f, c, fnv, pos)
+		vc.checkCallReqs(st, f, c, fnv, args, pos)
 	}
 	// builtins
 	if b, ok := c.Value.(*ssa.Builtin); ok && !c.IsInvoke() {
@@ -253,7 +253,7 @@ func (vc *VC) builtin(st *State, f *Frame, b *ssa.Builtin, c *ssa.CallCommon, ar
 		case *types.Basic:
 			return App(sortInt, "strlen", v)
 		case *types.Map:
-			mh := vc.mapHeapsOf(st, T.SortOf(u.Key()), T.SortOf(u.Elem()))
+			mh := vc.mapHeapsOf(st, u)
 			n := Select(mh.n, v, sortInt)
 			st.assume(Bin(sortBool, ">=", n, IntLit(0)))
 			return Ite(Eq(v, IntLit(0)), IntLit(0), n)
@@ -661,7 +661,7 @@ func (vc *VC) havocValueContents(st *State, v SV) {
 	switch u := types.Unalias(v.T).Underlying().(type) {
 	case *types.Map:
 		ks, es := T.SortOf(u.Key()), T.SortOf(u.Elem())
-		mh := vc.mapHeapsOf(st, ks, es)
+		mh := vc.mapHeapsOf(st, u)
 		vc.setHeap(st, mh.pn, Store(mh.p, v.V, vc.fresh("mp", T.ArrayOf(ks, sortBool))))
 		vc.setHeap(st, mh.vn, Store(mh.v, v.V, vc.fresh("mv", T.ArrayOf(ks, es))))
 		n := vc.fresh("mn", sortInt)
@@ -936,12 +936,85 @@ func (vc *VC) finish(st *State, f *Frame, res []Value, pos token.Pos) {
 		}
 		goals = append(goals, pending{cl, t})
 	}
+	// interface contracts this function implements: their ensures are checked through the
+	// abstraction of the receiver's type ("defines" clauses describe history ghosts and are skipped)
+	type implGoal struct {
+		label string
+		props []string
+		t     *Term
+	}
+	var igoals []implGoal
+	for _, key := range ct.Implements {
+		ict := vc.eng.db.ByIface[key]
+		if ict == nil {
+			vc.eng.specError(fmt.Sprintf("%s: implements unknown interface contract %s", ct.Target, key))
+			continue
+		}
+		ienv := vc.implEnv(st, f, ict, res)
+		if ienv == nil {
+			continue
+		}
+		ienv.old = vc.entry
+		for _, cl := range ict.Ensures {
+			t, err := ienv.EvalBool(cl.E)
+			if err != nil {
+				vc.eng.specError(fmt.Sprintf("%s implements %s: ensures [%s]: %v", ct.Target, key, cl.Label, err))
+				continue
+			}
+			props := cl.Props
+			if len(props) == 0 {
+				props = vc.clauseProps(ct, cl)
+			}
+			igoals = append(igoals, implGoal{"post[" + lastSeg(key) + "." + cl.Label + "]", props, t})
+		}
+	}
 	vc.groupKey = fmt.Sprintf("%s#path%d", vc.key, vc.npaths)
 	vc.groupPrefix = ""
 	for _, g := range goals {
 		vc.oblige(st, "post["+g.cl.Label+"]", g.t, vc.clauseProps(ct, g.cl), vc.posOf(pos))
 	}
+	for _, g := range igoals {
+		vc.oblige(st, g.label, g.t, g.props, vc.posOf(pos))
+	}
 	vc.groupKey = ""
+}
+
+// implEnv binds the names of an interface contract to the implementation's receiver,
+// parameters and results (by position).
+func (vc *VC) implEnv(st *State, f *Frame, ict *Contract, res []Value) *Env {
+	fn := f.fn
+	if fn.Signature.Recv() == nil || len(fn.Params) == 0 {
+		vc.eng.specError(fmt.Sprintf("%s: implements on a non-method", fn))
+		return nil
+	}
+	env := &Env{vc: vc, st: st, vars: map[string]SV{}, nq: &vc.nq}
+	this := SV{V: vc.term(st, f.regs[fn.Params[0]], "this"), T: fn.Params[0].Type()}
+	env.this = &this
+	env.vars["this"] = this
+	for i, p := range fn.Params[1:] {
+		name := p.Name()
+		if i < len(ict.Params) {
+			name = ict.Params[i]
+		}
+		env.vars[name] = SV{V: vc.term(st, f.regs[p], name), T: p.Type()}
+	}
+	if res != nil {
+		names := resultNames(ict, fn.Signature)
+		for i, r := range res {
+			env.vars[names[i]] = SV{V: vc.term(st, r, names[i]), T: fn.Signature.Results().At(i).Type()}
+		}
+	}
+	// names in the interface contract resolve in the interface's package
+	tgt := ict.Target // e.g. store.BalanceStore.GetNodeBalance
+	if i := strings.Index(tgt, "."); i > 0 {
+		if p := env.findPkg(tgt[:i]); p != nil {
+			env.pkg = p
+		}
+	}
+	if env.pkg == nil && fn.Pkg != nil {
+		env.pkg = fn.Pkg.Pkg
+	}
+	return env
 }
 
 // ---------------------------------------------------------------------------
@@ -1039,6 +1112,9 @@ func (vc *VC) guardCheck(st *State, f *Frame, addr ssa.Value, pos token.Pos) {
 	if !ok {
 		return
 	}
+	if _, fresh := rootOf(fa.X).(*ssa.Alloc); fresh {
+		return // an object allocated by this function and not yet shared (constructors)
+	}
 	pt := fa.X.Type().Underlying().(*types.Pointer).Elem()
 	stt, ok := pt.Underlying().(*types.Struct)
 	if !ok {
@@ -1103,7 +1179,7 @@ func (vc *VC) opaqueCall(st *State, callee *ssa.Function, args []Value) Value {
 }
 
 // checkCallReqs: caller-side requirements ("callreq") of the function under contract.
-func (vc *VC) checkCallReqs(st *State, f *Frame, c *ssa.CallCommon, fnv Value, pos string) {
+func (vc *VC) checkCallReqs(st *State, f *Frame, c *ssa.CallCommon, fnv Value, args []Value, pos string) {
 	name := ""
 	switch {
 	case c.IsInvoke():
@@ -1125,6 +1201,22 @@ func (vc *VC) checkCallReqs(st *State, f *Frame, c *ssa.CallCommon, fnv Value, p
 		env := vc.envFor(st, f)
 		env.old = vc.entry
 		env.frame = f
+		// arg0, arg1, ...: the arguments of the call (receiver excluded)
+		sig := c.Signature()
+		off := 0
+		if c.IsInvoke() || (sig.Recv() != nil) {
+			off = 1
+			if len(args) > 0 {
+				rt := c.Value.Type()
+				if !c.IsInvoke() {
+					rt = sig.Recv().Type()
+				}
+				env.vars["recv"] = SV{V: vc.term(st, args[0], "recv"), T: rt}
+			}
+		}
+		for i := 0; i+off < len(args) && i < sig.Params().Len(); i++ {
+			env.vars[fmt.Sprintf("arg%d", i)] = SV{V: vc.term(st, args[i+off], "arg"), T: sig.Params().At(i).Type()}
+		}
 		t, err := env.EvalBool(cr.Clause.E)
 		if err != nil {
 			vc.eng.specError(fmt.Sprintf("%s: callreq %s: %v", vc.contract.Target, cr.Pattern, err))
